@@ -50,9 +50,15 @@ Case(id, tree, pats) ==
   [id |-> id, tree |-> SetToSeq({EntryJ(e) : e \in tree}),
    pats |-> [i \in 1..Len(pats) |-> [segs |-> pats[i], expect |-> SetToSeq(FileList(tree, pats[i]))]]]
 
+(* characters that are special in shell globs but not here: ? [ ] \ stand   *)
+(* for themselves                                                           *)
+MetaAlphabet == {A, 63, 91, 93, 92}
+MetaNames == StringsUpTo(MetaAlphabet, 1, 3)
+MetaTree == {[path |-> <<n>>, dir |-> FALSE] : n \in MetaNames}
+MetaPats == SetToSeq({<<p>> : p \in {q \in StringsUpTo(MetaAlphabet \cup {STAR}, 1, IF Tier = "quick" THEN 3 ELSE 4) : ~AllStar(q) \/ Len(q) = 1}})
 FlatPats == SetToSeq({<<p>> : p \in Patterns})
 DeepPatSeq == SetToSeq(DeepPats)
-ASSUME ndJsonSerialize(OutFile, <<Case(1, FlatTree, FlatPats), Case(2, DeepTree, DeepPatSeq)>>)
+ASSUME ndJsonSerialize(OutFile, <<Case(1, FlatTree, FlatPats), Case(2, DeepTree, DeepPatSeq), Case(3, MetaTree, MetaPats)>>)
 ASSUME PrintT(<<"patterns", Len(FlatPats), Len(DeepPatSeq), "names", Cardinality(Names)>>)
 
 (* properties of the definition itself                                      *)
